@@ -1,7 +1,7 @@
 (* Executable instance of the graph model over Z with the observation encoding of
    harness/src/bin/c09.rs; evaluated by coqc on the correspondence cases. *)
 Require Import List ZArith Bool.
-From Dasp Require Import Base.Res Base.ListX Graph.Dfs Graph.Process Graph.ProcessPanic.
+From Dasp Require Import Base.Res Base.ListX Graph.Dfs Graph.Process Graph.ProcessPanic Graph.NodeData.
 Import ListNotations.
 Local Open Scope Z_scope.
 
@@ -30,7 +30,13 @@ Definition znfail (w : znode) (_ : list zbuf) : option znode :=
   then Some {| ident := ident w; kind := kind w; count := count w; val := val w; nbufs := nbufs w; armed := false |}
   else None.
 
-Inductive zop := ZN (k b : Z) | ZE (a b : Z) | ZR (a : Z) | ZP (o : Z) | ZB | ZQ | ZA (a : Z).
+Inductive zop := ZN (k b : Z) | ZE (a b : Z) | ZR (a : Z) | ZP (o : Z) | ZB | ZQ | ZA (a : Z)
+  | ZC (c k : Z).   (* add a node built by NodeData::new1 (c = 1), new2 (2), boxed1 (3), boxed2 (4) *)
+
+(* Buffer::SILENT as the harness reads it: Buffer::LEN = 64 samples whose bit pattern is 0 *)
+Definition zsilent : list Z := repeat 0 64.
+Definition zctor (c : Z) : ctor := match c with 1 => CNew1 | 2 => CNew2 | 3 => CBoxed1 | _ => CBoxed2 end.
+Definition bits_sum (bs : list (list Z)) : Z := fold_right (fun b acc => fold_right Z.add 0 b + acc) 0 bs.
 
 Definition n (z : Z) : nat := Z.to_nat z.
 Definition zn (k : nat) : Z := Z.of_nat k.
@@ -57,6 +63,15 @@ Definition zstep (st : zstate) (o : zop) : res (zstate * list (list Z)) :=
     let (g1, i) := add_node {| ident := 0; kind := k; count := 0; val := 0; nbufs := n b; armed := false |} g in
     let g2 := set_weight g1 i {| ident := zn i; kind := k; count := 0; val := 50000 + zn i; nbufs := n b; armed := false |} in
     Ok ((g2, p), [[1; zn i]])
+  | ZC c k =>
+    (* the constructor decides the buffers: how many there are and what they hold is observed
+       (number of buffers, sum of the bit patterns of all their samples) before the harness
+       writes its sentinels into them; from then on the node is as one added by ZN *)
+    let d := construct zsilent (zctor c) k in
+    let nb := length (nd_buffers d) in
+    let (g1, i) := add_node {| ident := 0; kind := nd_node d; count := 0; val := 0; nbufs := nb; armed := false |} g in
+    let g2 := set_weight g1 i {| ident := zn i; kind := nd_node d; count := 0; val := 50000 + zn i; nbufs := nb; armed := false |} in
+    Ok ((g2, p), [[1; zn i]; [19; zn nb; bits_sum (nd_buffers d)]])
   | ZE a b => let* g' := add_edge (n a) (n b) g in Ok ((g', p), [[2]])
   | ZR a => let (g', r) := remove_node (n a) g in Ok ((g', p), [[3; if r then 1 else 0]])
   | ZP o =>
